@@ -3,5 +3,7 @@ CONSTANTS Dates = {1}
           Vals = {1}
           MaxMerges = 0
           Stable = TRUE
+          Zones = {0}
+          ZoneAware = TRUE
 INIT Init
 NEXT Next
